@@ -179,6 +179,16 @@ def main(ctx):
         n_ = r_.randint(200, 900)
         progs.append("var out = []; for (var i = 0; i < %d; i++) { var a = [i, [i %% 7, 'x'], i * 2]; out.push(a.join('-') + '|' + String([a, a]) + '|' + ([a] + '').length); } "
                      "var bad = 0; for (var j = 0; j < out.length; j++) { if (out[j].indexOf(j + '-') !== 0) { bad++; } } log(bad, out.length, out[%d]); 'done'" % (n_, r_.randint(0, 150)))
+    # the text of every error message the engine composes about a value (it must describe the value, not the host object that
+    # represents it: those texts carry memory addresses and dict orders that differ from process to process)
+    bad_ops = ["Math()", "new Math.floor()", "JSON()", "new JSON()", "({})()", "[1, 2]()", "(function () {}).x()", "new ({a: 1})()", "new (function () { }.bind())().y()", "Math.max.nosuch()", "new Math.max()", "new parseInt('1')",
+               "[1].map({})", "[1].forEach([2])", "[3, 1].sort({})", "'a'.replace('a', {})()", "new Array({})", "new Int8Array({})", "new Int8Array(-1)", "new ArrayBuffer(-5)", "({}) instanceof ({})", "1 in ({}).x", "({}).x.y",
+               "Object.defineProperty(1, 'a', {})", "Object.setPrototypeOf(null, {})", "Object.create(5)", "new RegExp({toString: function () { return '('; }})", "(5).toFixed({})", "'a'.repeat({})", "console.nosuch()", "console()",
+               "Date()()", "new Date().nosuch()", "Error()()", "new Error('m')()", "/re/()", "new /re/()", "Object.keys()()", "Symbol && Symbol()()", "arguments", "new (Math.abs.bind(null))()", "null.x", "undefined.y", "(void 0).z = 1",
+               "[].reduce(function () {})", "new Function('(')", "eval('1 +')", "JSON.parse('{')", "JSON.stringify((function () { var c = {}; c.c = c; return c; })())", "x_not_declared", "x_not_declared = 1", "'x'.nosuch()", "(1).nosuch()"]
+    progs.append("var out = []; var OPS = %s; for (var i = 0; i < OPS.length; i++) { try { (0, eval)(OPS[i]); out.push('ok'); } catch (e) { out.push(String(e && e.name) + ': ' + String(e && e.message)); } } log(out); 'done'" % json.dumps(bad_ops))
+    for op in bad_ops:
+        progs.append("var m; try { %s; m = 'no error'; } catch (e) { m = [e && e.name, e && e.message, String(e)]; } log(m); %s" % (op, op))
     from checks import C08 as _c08
     for i in range(40 if ctx.quick else 600):
         progs.append(_c08.history(fixed if i % 2 == 0 else rng, 10, avoid=("fn-receiver",)))
